@@ -200,13 +200,16 @@ class Parser:
                     continue
                 if k not in ("main_reg", "constant_offset", "register_multiplier", "constant_multiplier"):
                     raise Unsupported("deref field " + str(k))
-                fields[k] = self.dval(v)
+                fields[k] = self.dval(v, k)
             if "main_reg" not in fields:
                 raise Unsupported("deref without main_reg")
+            caps = [f for f in ("main_reg", "register_multiplier") if f in fields and any(isinstance(x, Node) for x in fields[f])]
+            if len(caps) > 1:
+                raise Unsupported("two register-family captures in one $deref")
             return Node("oderef", None, None, lo, hi, extra=fields)
         raise Unsupported("operand dict " + str(name))
 
-    def dval(self, v):
+    def dval(self, v, field=None):
         if isinstance(v, bool):
             raise Unsupported("bool deref value")
         if isinstance(v, (str, int)):
@@ -215,6 +218,15 @@ class Parser:
                 # the wildcard admits '+' and '*', so what it covers inside the brackets is not tied to one
                 # component; no statement defines component boundaries for a wildcard: not judged by the model
                 raise Unsupported("@any inside $deref")
+            reg = split_reg_name(s)
+            if reg and field in ("main_reg", "register_multiplier"):
+                # a register-family capture as base / index register: the component is that register at the width the suffix selects
+                fam, key, width = reg
+                n = Node("oreg", s, None, extra=(fam, key, width))
+                n.is_def = self._cap(("o", key))
+                if not n.is_def and width is None:
+                    raise Unsupported("later register-family occurrence without a width suffix")
+                return [n]
             if s.startswith(("&", "$", "@")):
                 raise Unsupported("deref value " + s)
             return [s]
@@ -481,16 +493,24 @@ class Matcher:
                 return set()
             a, b, c, kk = comp
             d = node.extra
-            if not any(_reg_eq(w, a) for w in d["main_reg"]):
-                return set()
-            for fname, got, eq in (("register_multiplier", b, _reg_eq), ("constant_multiplier", c, _const_eq),
+            envs = {env}
+            for fname, got, eq in (("main_reg", a, _reg_eq), ("register_multiplier", b, _reg_eq), ("constant_multiplier", c, _const_eq),
                                    ("constant_offset", kk, _const_eq)):
                 if fname in d:
-                    if not any(eq(w, got) for w in d[fname]):
+                    nxt = set()
+                    for e in envs:
+                        for w in d[fname]:
+                            if isinstance(w, Node):
+                                if got is not None:
+                                    nxt |= {e2 for _, e2 in self._op1(w, [got], 0, e)}
+                            elif eq(w, got):
+                                nxt.add(e)
+                    envs = nxt
+                    if not envs:
                         return set()
                 elif got is not None:
                     return set()
-            return {(k + 1, env)}
+            return {(k + 1, e) for e in envs}
         raise Unsupported(kind)
 
     # ---- whole-rule queries
@@ -531,6 +551,8 @@ def defs_on_spine(root: Node) -> bool:
         if node.kind == "ogroup":
             inner = here and node.name == "and"
             return all(walk(c, inner) for c in node.children)
+        if node.kind == "oderef":
+            return all(walk(x, here and len(v) == 1) for v in node.extra.values() for x in v if isinstance(x, Node))
         return True
     return walk(root, True)
 
